@@ -30,6 +30,7 @@ type c15Params struct {
 	Trip     int
 	Reset    int
 	Bound    int
+	Fine     bool // statement-granularity scheduling points inside breaker.go
 }
 
 const (
@@ -85,6 +86,7 @@ func c15Execute(x *explore.Exec, p c15Params, keyed *c15Keyed) *c15Exec {
 	r := &c15Exec{}
 	r.s = sched.Run(x, func(s *sched.Sched) {
 		s.Bound = p.Bound
+		s.FineGrained = p.Fine
 		if keyed != nil {
 			s.Seen = keyed.seen
 			s.StatesSeen = &keyed.states
@@ -347,10 +349,52 @@ func (q *c15Search) run(pos int, m brkModel, pend []pendOp, tags map[[2]int]int)
 			}
 			continue
 		}
-		// the hooks the machine emits must be exactly the next events, raised by this thread
+		// the hooks the machine emits must be the next events (clock advances may fall in between: the
+		// clock thread is not excluded by the breaker's mutex, and the back-off deadline is computed from
+		// the clock as read when the back-off is set)
 		np := pos
 		match := true
+		var arrived []pendOp   // operations of other threads that became pending while this one was in progress
+		nows := []int64{m.now} // clock values this operation may have read
 		for _, em := range out {
+			// events of other threads may fall between this operation's hooks (statement-granularity
+			// scenarios preempt inside the critical section): clock advances, other threads starting a call,
+			// entering or leaving their f, or returning from a call whose steps are already linearised
+			for np < len(q.ev) && (q.ev[np].K == "adv" || (q.ev[np].T != op.t && q.ev[np].K != "hook" && q.ev[np].K != "backoff")) {
+				e := q.ev[np]
+				isPend := func(after bool) bool {
+					for _, o := range append(append([]pendOp(nil), pend...), arrived...) {
+						if o.t == e.T && o.i == e.I && o.after == after {
+							return true
+						}
+					}
+					return false
+				}
+				switch e.K {
+				case "adv":
+					m2.now += int64(c15Advance)
+					nows = append(nows, m2.now)
+				case "start":
+					arrived = append(arrived, pendOp{t: e.T, i: e.I})
+				case "fend":
+					arrived = append(arrived, pendOp{t: e.T, i: e.I, after: true, ok: e.OK})
+				case "fbeg":
+					if isPend(false) {
+						match = false
+					}
+				case "end":
+					if isPend(false) || isPend(true) {
+						match = false
+					}
+				}
+				if !match {
+					break
+				}
+				np++
+			}
+			if !match {
+				break
+			}
 			if np >= len(q.ev) {
 				match = false
 				break
@@ -361,9 +405,16 @@ func (q *c15Search) run(pos int, m brkModel, pend []pendOp, tags map[[2]int]int)
 					match = false
 				}
 			} else {
-				if e.K != "backoff" || e.At != em.at || e.D != c15Backoff {
+				okAt := false
+				for _, n := range nows {
+					if e.At == n+int64(c15Backoff) {
+						okAt = true
+					}
+				}
+				if e.K != "backoff" || !okAt || e.D != c15Backoff {
 					match = false
 				}
+				m2.d = e.At
 			}
 			if !match {
 				break
@@ -376,7 +427,7 @@ func (q *c15Search) run(pos int, m brkModel, pend []pendOp, tags map[[2]int]int)
 			}
 			continue
 		}
-		rest := append(append([]pendOp(nil), pend[:pi]...), pend[pi+1:]...)
+		rest := append(append(append([]pendOp(nil), pend[:pi]...), pend[pi+1:]...), arrived...)
 		if q.run(np, m2, rest, tags2) {
 			return true
 		}
@@ -501,11 +552,14 @@ func c15Scenarios(c *fw.Ctx) []c15Params {
 			{Name: "3x2-N2-b3", Callers: 3, Calls: 2, Advances: 2, N: 2, Trip: 2, Reset: 2, Bound: 3},
 			{Name: "2x3-N1-b4", Callers: 2, Calls: 3, Advances: 2, N: 1, Trip: 2, Reset: 1, Bound: 4},
 			{Name: "3x3-N1-b2", Callers: 3, Calls: 3, Advances: 2, N: 1, Trip: 2, Reset: 2, Bound: 2},
+			{Name: "3x2-N1-statement-granularity-b2", Callers: 3, Calls: 2, Advances: 1, N: 1, Trip: 2, Reset: 1, Bound: 2, Fine: true},
+			{Name: "2x2-N2-statement-granularity-b3", Callers: 2, Calls: 2, Advances: 1, N: 2, Trip: 2, Reset: 1, Bound: 3, Fine: true},
 		}
 	}
 	return []c15Params{
 		{Name: "3x2-N1-b2", Callers: 3, Calls: 2, Advances: 2, N: 1, Trip: 2, Reset: 2, Bound: 2},
 		{Name: "3x2-N2-b2", Callers: 3, Calls: 2, Advances: 2, N: 2, Trip: 2, Reset: 1, Bound: 2},
+		{Name: "2x2-N1-statement-granularity-b2", Callers: 2, Calls: 2, Advances: 1, N: 1, Trip: 2, Reset: 1, Bound: 2, Fine: true},
 	}
 }
 
@@ -557,7 +611,7 @@ func init() {
 		ID:    "C15",
 		Level: "model_checking",
 		Rule: "stateless DFS over choice vectors of the REAL circuit.Breaker under a cooperative scheduler: threads = 2-3 callers x 2-3 Call()s + 1 clock thread (advance past back-off); " +
-			"choice points = which enabled thread runs next at every mutex acquisition / in-flight point (switching away from a runnable thread costs 1 preemption, bound per scenario) and the outcome (ok/fail) of every admitted call; " +
+			"choice points = which enabled thread runs next at every mutex acquisition / in-flight point (in the *-statement-granularity scenarios: before every statement of breaker.go, so interleavings of unsynchronised statements are explored too) (switching away from a runnable thread costs 1 preemption, bound per scenario) and the outcome (ok/fail) of every admitted call; " +
 			"oracle = existence of a linearisation of the three-state reference machine (closed/open/half-open, epochs, stale completions ignored, <=N in half-open, trip/reset thresholds, hooks+back-off sequence) explaining the observed history, plus in-flight count >= 0 at every harness event, no deadlock, no panic; " +
 			"distinct_nontrivial = distinct (per-call results + hook sequence) signatures among executions in which a call overlapped another call, a clock advance or a state change",
 		Assumptions: []string{
